@@ -1,6 +1,6 @@
 SPECIFICATION BSpec
 CONSTANTS
-  FinalRule = "buffer_nonempty"
+  FinalRule = "total_positive"
   BCfgSet <- Cfgs
 INVARIANTS OrderInv DoneInv
 PROPERTY Terminates
